@@ -38,13 +38,27 @@ def synth_mem(rng, family=None):
         m.update(memtype="DDR4", nphases=4, rdphase=rng.randint(0, 3), wrphase=rng.randint(0, 3), cl=rng.choice([9, 11]),
                  cwl=9, read_latency=rng.randint(4, 9), write_latency=rng.choice([1, 2]))
         m["bankbits"] = rng.choice([2, 3])
+    elif family == "LPDDR4x8":
+        # as LPDDR4PHY declares itself: 8 phases, 16n prefetch (burst = one controller cycle), CSR-controlled phases
+        m.update(memtype="LPDDR4", nphases=8, rdphase=rng.randint(0, 7), wrphase=rng.randint(0, 7), cl=rng.choice([6, 10, 14]),
+                 cwl=rng.choice([4, 6, 8]), read_latency=rng.randint(4, 9), write_latency=rng.choice([0, 1, 2]), dfi_mult=2)
+        m["bankbits"] = 3
+        m["colbits"] = 10
+        m["force_phase_signals"] = True
+    elif family == "LPDDR5x1":
+        # as LPDDR5PHY declares itself: a single phase carrying the whole BL16 burst
+        m.update(memtype="LPDDR5", nphases=1, rdphase=0, wrphase=0, cl=rng.choice([6, 8, 10]), cwl=rng.choice([4, 6]),
+                 read_latency=rng.randint(3, 8), write_latency=rng.choice([0, 1, 2]), dfi_mult=16, databits=rng.choice([8, 16]))
+        m["bankbits"] = rng.choice([3, 4])
+        m["colbits"] = rng.choice([6, 10])
     if m["colbits"] > 10:
         # a device with column bit 11 has at least 12 address pins (A10 is skipped by columns)
         m["rowbits"] = max(m["rowbits"], m["colbits"] + 1)
     m["family"] = family
     # a third of the multi-phase configurations pass the phases as Signals (CSR-controlled phases of the 7-series /
     # UltraScale PHYs); drawn last so that the rest of the configuration stream is unchanged
-    m["phase_signals"] = bool(m["nphases"] > 1 and rng.random() < 0.35)
+    force = m.pop("force_phase_signals", False)
+    m["phase_signals"] = bool(m["nphases"] > 1 and (rng.random() < 0.35 or force))
     return m
 
 
@@ -82,6 +96,6 @@ def cost_of(mem, nports, cycles):
         nph = int(mem["rate"].split(":")[1])
     else:
         nb = (1 << mem["bankbits"]) * mem.get("nranks", 1)
-        nph = mem["nphases"]
+        nph = min(mem["nphases"], 5)
     per_cycle = 0.002 + 0.0018 * nb + 0.0008 * nph + 0.0006 * nports * nb / 4
     return per_cycle * cycles
